@@ -106,7 +106,8 @@ def rank3_tensors(env, nsteps):
 
 
 def build_process_tensor(env, nsteps, dt=None, rank3=False, transform=None,
-                         caps="explicit", name=None, description=None):
+                         caps="explicit", name=None, description=None,
+                         feed="copy"):
     """SimpleProcessTensor for the environment. transform=(tin, tout) stores
     the tensors in a rotated basis such that the transformed tensors are the
     original ones."""
@@ -132,8 +133,21 @@ def build_process_tensor(env, nsteps, dt=None, rank3=False, transform=None,
         # transforms such that tin . delta(T') . tout is the lab-frame tensor
     pt = oqupy.SimpleProcessTensor(d, dt=dt, name=name,
                                    description=description, **kw)
+    # how the caller hands the tensors over: fresh arrays, Fortran-ordered
+    # arrays, or ONE work buffer that is refilled for every step (the process
+    # tensor must hold the values at the time of each call)
+    buf = {}
     for k, t in enumerate(tens):
-        pt.set_mpo_tensor(k, t)
+        if feed == "fortran":
+            pt.set_mpo_tensor(k, np.asfortranarray(t))
+        elif feed == "buffer":
+            b = buf.setdefault(t.shape, np.empty(t.shape, dtype=complex))
+            b[...] = t
+            pt.set_mpo_tensor(k, b)
+        else:
+            pt.set_mpo_tensor(k, t)
+    for b in buf.values():
+        b[...] = 9.9
     if caps == "explicit":
         for k, c in enumerate(env.caps(nsteps)):
             pt.set_cap_tensor(k, c)
